@@ -246,7 +246,15 @@ def run(case):
   R.sched = sc
   envs = [prog.Env(t, R.fns, sched=sc, exc_class=R.exc_classes[t])
           for t in range(n)]
-  sc.run([R.thread_fn(envs[t], case['threads'][t]) for t in range(n)])
+  try:
+    sc.run([R.thread_fn(envs[t], case['threads'][t]) for t in range(n)])
+  except sched_lib.SimDeadlock as e:
+    res['steps'] = sc.steps
+    res['turns'] = sc.turns
+    res['sched_hash'] = sc.sched_hash()
+    res['faults'] = {'preempt': sc.switches}
+    res['violations'].append(V('deadlock', f'threads on disjoint configurations deadlocked: {e}'))
+    return res
   res['steps'] = sc.steps
   res['sched_hash'] = sc.sched_hash()
   res['turns'] = sc.turns
@@ -261,6 +269,8 @@ def run(case):
     res['faults']['nested_build'] = sum(len(v) // 2 for v in nested_con.values())
   if sc.pauses:
     res['probes']['explicit_pause_points'] = sc.pauses
+  if sc.lock_waits:
+    res['faults']['lock_wait'] = sc.lock_waits
   if case.get('opcode'):
     res['probes']['opcode_granularity_runs'] = 1
   # ---- reference: each program alone ------------------------------------
